@@ -25,9 +25,19 @@ Definition c15_meta_agree (c : c15meta) : bool :=
   | Some fs => negb (e_raised c) && list_beq field_beq fs (e_fields c)
   end.
 
-(** the property: the csvpath is untouched by the comment; every rendered field is available *)
+(** the same with the unrepaired comment parser (defect D23): used only to say that a disagreement is that defect again *)
+Definition c15_meta_agree_d23 (c : c15meta) : bool :=
+  let '(p, cm) := extract_csvpath_and_comment (e_text c) in
+  ustr_eqb p (e_path c) && ustr_eqb cm (e_comment c) &&
+  match collect_metadata_d23 (strip cm) with
+  | None => e_raised c
+  | Some fs => negb (e_raised c) && list_beq field_beq fs (e_fields c)
+  end.
+
+(** the property: the csvpath is untouched by the comment, whatever the comment says the parse does not fail;
+    every rendered field is available *)
 Definition c15_meta_spec (c : c15meta) : bool :=
-  ustr_eqb (e_path c) (e_body c) &&
+  ustr_eqb (e_path c) (e_body c) && negb (e_raised c) &&
   match e_kvs c with
   | [] => true
   | kvs => negb (e_raised c) &&
